@@ -316,7 +316,7 @@ def numeric_reader(fn, k):
 @rewrite /smallvec!\\[([^;\\]]+); (\\w+)\\]/ => smallvec_from_elem(\\1, \\2)
 @rewrite /&mut vec\\[\\.\\.\\]/ => vec.as_mut_slice()
 @spec
-{VALUE_SPEC}@proof after /let n = len >> {k};/
+{VALUE_SPEC}@proof after /let n = len >> \\d+;/
         proof {{ lemma_split_{k}(len); }}
 @*/
 '''
@@ -341,12 +341,12 @@ OTHER = []
 OTHER.append(value_fn("read_value_us", r"""@rewrite /smallvec!\[([^;\]]+); (\w+)\]/ => smallvec_from_elem(\1, \2)
 @rewrite /&mut vec\[\.\.\]/ => vec.as_mut_slice()
 @rewrite /vec\.first\(\)\.map\(\|rep\| \*rep != 0\)/ => first_nonzero(&vec)
-""", "@proof after /let n = len >> 1;/\n        proof { lemma_split_1(len); }\n"))
+""", "@proof after /let n = len >> \\d+;/\n        proof { lemma_split_1(len); }\n"))
 OTHER.append(value_fn("read_value_ob", r"""@rewrite /smallvec!\[([^;\]]+); (\w+)\]/ => smallvec_from_elem(\1, \2)
 @rewrite /\.read_exact\(&mut buf\)/ => .read_exact(buf.as_mut_slice())
 """))
 OTHER.append(value_fn("read_value_tag", r"""@rewrite /(?s)let parts: Result<_> = n_times\(ntags\).*?\.collect\(\);/ => let parts: Result<C<Tag>> = decode_tags_n(&self.basic, &mut self.from, ntags);
-""", "@proof after /let ntags = len >> 2;/\n        proof { lemma_split_2(len); }\n"))
+""", "@proof after /let ntags = len >> \\d+;/\n        proof { lemma_split_2(len); }\n"))
 OTHER.append(value_fn("read_value_strs", TEXT_COMMON + r"""@rewrite /(?s)let parts: Result<_> = if use_charset_declared \{.*?\n        \};/ => let parts: Result<C<String>> = opaque_strs(self.buffer.as_slice());
 """).replace("            r is Ok ==> Self::advanced", "            r is Ok ==> r->Ok_0 is Strs,\n            r is Ok ==> Self::advanced"))
 OTHER.append(value_fn("read_value_str", TEXT_COMMON + r"""@rewrite /&self\.buffer\[\.\.\]/ => self.buffer.as_slice()
